@@ -183,12 +183,12 @@ def generate():
     if extra:
         raise Unsupported("class ECDH has methods the model does not know: %s" % ", ".join(extra))
     lines = ["-- GENERATED by harness/translate/gen_ecdhskel.py; do not edit.  source: src/ecdsa/ecdh.py class ECDH",
-             "import Model.EcdhSkel", "namespace Gen.Ecdh", "open EcdhSkel", "",
+             "import Model.EcdhSkel", "namespace Gen.EcdhProg", "open EcdhSkel", "",
              "/-- the methods of class `ECDH` as statement lists -/", "def prog : Prog where"]
     for py, ln in METHODS:
         if py not in fns:
             raise Unsupported("method %s missing" % py)
         body = M(fns[py]).body()
         lines.append("  %s := [%s]" % (ln, ", ".join(body)))
-    lines += ["", "end Gen.Ecdh", ""]
+    lines += ["", "end Gen.EcdhProg", ""]
     return {"EcdhSkel.lean": "\n".join(lines)}
